@@ -16,6 +16,7 @@
  */
 #define _GNU_SOURCE
 #include <assemblyline.h>
+#include <verif_hooks.h>
 #include <signal.h>
 #include <stdio.h>
 #include <stdlib.h>
@@ -36,7 +37,12 @@ struct outcome {
   int ret, off0, off1, lo, hi, pre, outside, dest, nbytes, hasrax;
   unsigned char bytes[CAP];
   unsigned char rax[8];
+  int hf, hfna, ho, hr, hx; /* hooks: max kept chars of the filter, filter reported an error, max operand slot, max register cursor, max index-register length */
 };
+
+static int g_hf, g_hfna, g_ho, g_hr, g_hx;
+static void on_filtered(const char *in, const char *out, int j, int ret) { (void)in; (void)out; if (j > g_hf) g_hf = j; if (ret < 0) g_hfna = 1; }
+static void on_idx(int site, int idx, int cap) { (void)cap; if (site == 1 && idx > g_ho) g_ho = idx; if (site == 2 && idx > g_hr) g_hr = idx; if (site == 3 && idx > g_hx) g_hx = idx; }
 
 static unsigned char *arena; /* CANARY | CAP | CANARY, RWX */
 static int want_ctx[5], want_mode[3], optsel = 0, chunk = 8;
@@ -92,7 +98,9 @@ static void do_run(const char *text, int oi, int ctx, int mode, int exec, struct
   memset(o, 0, sizeof *o);
   o->pre = prefix_len(prefix, oi, mode, off0);
   int off1a, off1b, da, db;
+  g_hf = g_ho = g_hr = g_hx = -1; g_hfna = 0;
   int ra = run_once(prog, oi, mode, off0, 0xAA, a, &off1a, &da);
+  o->hf = g_hf; o->hfna = g_hfna; o->ho = g_ho; o->hr = g_hr; o->hx = g_hx;
   int rb = run_once(prog, oi, mode, off0, 0x55, b, &off1b, &db);
   o->ret = ra;
   o->off0 = off0;
@@ -133,7 +141,7 @@ static void do_run(const char *text, int oi, int ctx, int mode, int exec, struct
 static int same(const struct outcome *x, const struct outcome *y) {
   return x->ret == y->ret && x->off0 == y->off0 && x->off1 == y->off1 && x->lo == y->lo &&
          x->hi == y->hi && x->pre == y->pre && x->outside == y->outside && x->dest == y->dest &&
-         x->nbytes == y->nbytes && x->hasrax == y->hasrax && !memcmp(x->bytes, y->bytes, x->nbytes) &&
+         x->nbytes == y->nbytes && x->hasrax == y->hasrax && x->hf == y->hf && x->hfna == y->hfna && x->ho == y->ho && x->hr == y->hr && x->hx == y->hx && !memcmp(x->bytes, y->bytes, x->nbytes) &&
          !memcmp(x->rax, y->rax, 8);
 }
 
@@ -171,8 +179,8 @@ static void emit_job(FILE *out, const char *id, const char *text, int exec) {
         struct outcome *o = &oc[k];
         n += snprintf(line + n, sizeof line - n,
                       "],\"ctx\":\"%s\",\"mode\":\"%s\",\"ret\":%d,\"off0\":%d,\"off1\":%d,\"lo\":%d,\"hi\":%d,"
-                      "\"pre\":%d,\"outside\":%d,\"dest\":%d,\"bytes\":[",
-                      CTXS[c], MODES[m], o->ret, o->off0, o->off1, o->lo, o->hi, o->pre, o->outside, o->dest);
+                      "\"pre\":%d,\"outside\":%d,\"dest\":%d,\"hk\":[%d,%d,%d,%d,%d],\"bytes\":[",
+                      CTXS[c], MODES[m], o->ret, o->off0, o->off1, o->lo, o->hi, o->pre, o->outside, o->dest, o->hf, o->hfna, o->ho, o->hr, o->hx);
         for (int i = 0; i < o->nbytes; i++)
           n += snprintf(line + n, sizeof line - n, "%s%d", i ? "," : "", o->bytes[i]);
         n += snprintf(line + n, sizeof line - n, "],\"rax\":[");
@@ -235,7 +243,9 @@ int main(int argc, char **argv) {
   }
   arena = mmap(NULL, CAP + 2 * CANARY, PROT_READ | PROT_WRITE | PROT_EXEC, MAP_ANONYMOUS | MAP_PRIVATE, -1, 0);
   size_t *progress = mmap(NULL, sizeof(size_t), PROT_READ | PROT_WRITE, MAP_ANONYMOUS | MAP_SHARED, -1, 0);
-  if (!freopen("/dev/null", "w", stderr)) return 2;
+  al_verif.filtered = on_filtered;
+  al_verif.idx = on_idx;
+  if (!getenv("LINERUN_STDERR") && !freopen("/dev/null", "w", stderr)) return 2;
   size_t start = 0;
   while (start < nj) {
     fflush(stdout);
